@@ -84,6 +84,19 @@ def extra_specs():
         ],
     ))
     S.append(dict(
+        name="mixed_chained_comparison",
+        params=[("a", None), ("b", None)],
+        vars=[("x", None), ("y", None)],
+        derived=[("dwin", R.chain_mixed_expr, ["x", "a", "b"])],
+        reactions=[("v1", R.chain_cmp_expr, ["x", "a", "b"], {"x": -1, "y": 1}), ("v2", R.mass_action_1s, ["y", "dwin"], {"y": -1})],
+    ))
+    S.append(dict(
+        name="helper_with_partial_defaults",
+        params=[("vm", None), ("km", None)],
+        vars=[("x", None)],
+        reactions=[("v1", R.calls_with_partial_defaults, ["x", "vm", "km"], {"x": -1})],
+    ))
+    S.append(dict(
         name="arg_shadows_module_constant",
         params=[("k1", None), ("k2", None)],
         vars=[("x", None)],
